@@ -328,6 +328,7 @@ class Program:
             return self._cg
         cg = defaultdict(set)
         foreign = defaultdict(set)
+        self.callback_targets = set()   # entered from foreign generic code: their arguments come from no visible call site
         for b in self.bodies:
             for bi, t in b.calls():
                 cv = CalleeView(t["callee"])
@@ -348,6 +349,16 @@ class Program:
                         for d in self.trait_impl_items().get((norm(m.group(2)), tgt.split("::")[-1]), ()):
                             if d in self.by_short:
                                 cg[b.short].add(d)
+                    # callbacks: foreign generic code instantiated with a type of this crate (`serde_json::to_string_pretty::<ErrorList<WriterError>>`,
+                    # `Vec<MappingInfo>::clone`, `format!("{}", x)`) may call any trait method that type implements
+                    if not cv.local and "<" in (cv.inst or ""):
+                        ni = cv.inst
+                        for base, items in self.local_type_impl_items().items():
+                            if base in ni:
+                                for d in items:
+                                    if d in self.by_short:
+                                        cg[b.short].add(d)
+                                        self.callback_targets.add(d)
             # function items used as values (`iter.find(is_executable_section)`, `.map(Self::helper)`): the callee will call them
             for blk in b.blocks:
                 ops = []
@@ -385,6 +396,24 @@ class Program:
             self._tii = out
         return self._tii
 
+    def local_type_impl_items(self):
+        """type path (without generic arguments) -> trait-impl method items of that type in this crate"""
+        if getattr(self, "_ltii", None) is None:
+            out = defaultdict(list)
+            roots = {b.short.split("::")[0] for b in self.bodies if not b.short.startswith("<")}
+            for im in self.impls:
+                if not im.get("trait") or not im.get("self_ty"):
+                    continue
+                tr = norm(im["trait"])
+                if tr.split("::")[0] in roots and "::_::" not in tr:
+                    continue    # a trait of this crate: foreign code cannot name it; its calls are resolved directly
+                base = _strip_generic_tail(im["self_ty"].lstrip("&").strip())
+                for it in im.get("items", []):
+                    if it.get("kind") in ("Fn", "AssocFn"):
+                        out[base].append(norm(it["def"]))
+            self._ltii = out
+        return self._ltii
+
     def reachable(self, entries):
         cg, _ = self.callgraph()
         seen = set()
@@ -400,6 +429,22 @@ class Program:
         return seen
 
 
+def _strip_generic_tail(ty):
+    """`a::b::T<'x, U>` -> `a::b::T` (only the trailing argument list; `<impl ..>` segments inside the path stay)"""
+    if not ty.endswith(">"):
+        return ty
+    depth = 0
+    for i in range(len(ty) - 1, -1, -1):
+        if ty[i] == ">":
+            depth += 1
+        elif ty[i] == "<":
+            depth -= 1
+            if depth == 0:
+                return ty[:i]
+    return ty
+
+
+_PATH_TOKEN = re.compile(r"[A-Za-z_][A-Za-z0-9_]*(?:::[A-Za-z_][A-Za-z0-9_]*)+")
 _GENERIC_SELF = re.compile(r"^<([A-Z][A-Za-z0-9_]*) as ([^>]+?)(<.*)?>::")
 
 
